@@ -63,6 +63,57 @@ W = [
      [[0, R(1, 0), E(1)], RUN]),
 ]
 
+# The six scenarios of /repo/tests/units/main/screen_scheduler_test.py at the level of the loop API: class 1 =
+# RenderScreenSignal (source: the scheduler, object 50, registered nowhere), class 2 = CloseScreenSignal (source:
+# the screen, objects 100..), handler 0 = ScreenScheduler._process_screen_callback, handler 1 =
+# _close_screen_callback; the k-th invocation does what the scheduler did for the k-th screen in the recorded run
+# (register_signal_source twice, push modal = execute_new_loop, close modal = close_loop, redraw = enqueue a
+# render, empty stack = raise ExitMainLoop); marks 1..4 = the test's BEFORE/AFTER_MODAL_REFRESH/RENDER checkpoints.
+REG = lambda o: [7, o]
+RENDER = lambda: E(1, 0, 50)
+NRENDER = lambda: N(1, 0, 50)
+CLOSESIG = lambda o: E(2, 0, o)
+
+
+def chain(*branches):
+    """k-th invocation runs branches[k] (the last one repeats)"""
+    if len(branches) == 1:
+        return list(branches[0])
+    k = len(branches) - 1
+    out = list(branches[k])
+    for i in range(k - 1, -1, -1):
+        out = [IF(i + 1, branches[i], out)]
+    return out
+
+
+SETUP = [0, R(1, 0), R(2, 1), RENDER()]
+S = [
+    ("replace_screen",
+     [chain([REG(100), REG(100), RENDER()], [REG(101), REG(101), CLOSESIG(101)]),
+      chain([EXIT])]),
+    ("switch_screen",
+     [chain([REG(100), REG(100), RENDER()], [REG(101), REG(101), CLOSESIG(101)], [REG(100), CLOSESIG(100)]),
+      chain([RENDER()], [EXIT])]),
+    ("modal_in_render",
+     [chain([REG(100), REG(100), M(3), NRENDER(), M(4), CLOSESIG(100)], [REG(101), REG(101), CLOSESIG(101)]),
+      chain([CLOSE], [EXIT])]),
+    ("modal_in_refresh",
+     [chain([REG(100), REG(100), M(1), NRENDER(), M(2), CLOSESIG(100)], [REG(101), REG(101), CLOSESIG(101)]),
+      chain([CLOSE], [EXIT])]),
+    ("modal_refresh_and_render",
+     [chain([REG(100), REG(100), M(1), NRENDER(), M(2), M(3), NRENDER(), M(4), CLOSESIG(100)],
+            [REG(101), REG(101), CLOSESIG(101)], [REG(102), REG(102), CLOSESIG(102)]),
+      chain([CLOSE], [CLOSE], [EXIT])]),
+    ("modal_render_recursive",
+     [chain([REG(100), REG(100), M(3), NRENDER(), M(4), CLOSESIG(100)],
+            [REG(101), REG(101), M(3), NRENDER(), M(4), CLOSESIG(101)], [REG(102), REG(102), CLOSESIG(102)]),
+      chain([CLOSE], [CLOSE], [EXIT])]),
+]
+
+
+def scenarios():
+    return [dict(name=n, case=[FUEL, b, [SETUP, RUN]]) for n, b in S]
+
 
 def cases():
     return [dict(key=k, name=n, case=[FUEL, b, a]) for k, n, b, a in W]
@@ -73,7 +124,7 @@ def coq_opt(o):
 
 
 def coq_z(z):
-    return "(%d)" % z
+    return "(%d)%%Z" % z
 
 
 def coq_cmd(c):
@@ -92,6 +143,8 @@ def coq_cmd(c):
         return "CmCloseLoop"
     if op == 6:
         return "CmProcess %s" % coq_opt(c[1])
+    if op == 7:
+        return "CmRegSource %d" % c[1]
     if op == 8:
         return "CmRegHandler %d %d %d" % (c[1], c[2], c[3])
     if op == 9:
@@ -113,6 +166,11 @@ def coq_defs():
         for act in a:
             acts.append("ARun" if act[0] == 1 else "ACmds [%s]" % "; ".join(coq_cmd(c) for c in act[1:]))
         out.append("Definition w_%s_acts : list action := [%s]." % (n, "; ".join(acts)))
+    for n, b in S:
+        out.append("(* scheduler scenario: %s *)" % n)
+        out.append("Definition s_%s_bodies : list (list cmd) := [%s]." % (
+            n, "; ".join("[%s]" % "; ".join(coq_cmd(c) for c in body) for body in b)))
+    out.append("Definition s_acts : list action := [ACmds [%s]; ARun]." % "; ".join(coq_cmd(c) for c in SETUP[1:]))
     return out
 
 
@@ -120,5 +178,5 @@ if __name__ == "__main__":
     if "--coq" in sys.argv:
         print("\n".join(coq_defs()))
     else:
-        for w in cases():
+        for w in cases() + scenarios():
             print(json.dumps(w))
